@@ -3,7 +3,7 @@ use std::collections::{BTreeMap, BTreeSet};
 
 use ractor::ActorStatus;
 
-use crate::harness::{Discard, Ev, Event, How, Routing, Run};
+use crate::harness::{Discard, Ev, Event, How, QueueKind, Routing, Run};
 
 struct Fate {
     starts: Vec<(u64, usize, u32)>,
@@ -241,9 +241,58 @@ pub fn c15(run: &Run) -> Vec<String> {
         if run.cfg.factory_queueing() {
             for (step, q, ..) in &run.probes {
                 if let Some(q) = q {
-                    if *q > l {
-                        bad.push(format!("after step {step} of {:?} the factory queue holds {q} jobs, the discard limit is {l}", run.history));
+                    // jobs the priority manager declares non-discardable (key b in the prio-keep units) are
+                    // queued regardless of the limit
+                    let keep = if run.cfg.queue == QueueKind::PriorityKeep { run.history[..=*step].iter().filter(|e| matches!(e, Event::Dispatch(1))).count() } else { 0 };
+                    if *q > l + keep {
+                        bad.push(format!("after step {step} of {:?} the factory queue holds {q} jobs, the discard limit is {l} ({keep} non-discardable jobs were dispatched)", run.history));
                     }
+                }
+            }
+        }
+        // WHICH job is shed (queuer routing, where all waiting jobs sit in one queue; histories in
+        // which the system settled after every request, so that "at that moment" is well defined):
+        // newest = the job being dispatched; oldest = the longest-waiting job of the lowest priority class
+        // that has one (the default queue has a single class)
+        // (queuer routing only: sticky routing parks jobs of a key that is in progress at that worker)
+        if run.cfg.routing == Routing::Queuer && !run.history.contains(&Event::NoSettle) {
+            let first_lc = |id: u32, pick: &dyn Fn(&Ev) -> bool| run.events.iter().find(|(_, e)| pick(e) && matches!(e, Ev::Start { id: i, .. } | Ev::Discard { id: i, .. } if *i == id)).map(|(l, _)| *l);
+            for (t, e) in &run.events {
+                let Ev::Discard { reason, id } = e else { continue };
+                if reason != "Loadshed" {
+                    continue;
+                }
+                let key_of = |i: u32| run.jobs.iter().find(|j| j.id == i).map(|j| j.key).unwrap_or(0);
+                // (observation outside the listed properties, see DESIGN.md 10.6: in mode Oldest the factory
+                // sheds without consulting PriorityManager::is_discardable, so a "non-discardable" job can be
+                // shed; C15 only bounds the number of waiting discardable jobs, so this is not demanded here)
+                // jobs sent before this moment that neither started nor were discarded before it
+                let waiting: Vec<u32> = run
+                    .jobs
+                    .iter()
+                    .filter(|j| j.lc < *t && !j.send_failed && !j.after_drain)
+                    .filter(|j| j.id == *id || (first_lc(j.id, &|e| matches!(e, Ev::Start { .. })).is_none_or(|l| l > *t) && first_lc(j.id, &|e| matches!(e, Ev::Discard { .. })).is_none_or(|l| l > *t)))
+                    .map(|j| j.id)
+                    .collect();
+                let newest = run.jobs.iter().filter(|j| j.lc < *t).map(|j| j.id).max();
+                match run.cfg.discard {
+                    Discard::Newest(_) => {
+                        if Some(*id) != newest {
+                            bad.push(format!("discard mode Newest shed job {id}, but the job being dispatched was {newest:?} (waiting: {waiting:?}, history {:?})", run.history));
+                        }
+                    }
+                    Discard::Oldest(_) => {
+                        let class = |i: u32| if run.cfg.queue == QueueKind::Default { 0 } else { key_of(i) };
+                        let candidates: Vec<u32> = waiting.clone();
+                        // lowest priority class present (key a = best effort = class 0 here), then the oldest in it
+                        let lowest = candidates.iter().map(|i| class(*i)).min();
+                        let expect = candidates.iter().copied().filter(|i| Some(class(*i)) == lowest).min();
+                        // the job being dispatched may itself be the only candidate
+                        if expect.is_some() && Some(*id) != expect {
+                            bad.push(format!("discard mode Oldest shed job {id}, but the longest-waiting job of the lowest priority was {expect:?} (waiting: {waiting:?}, history {:?})", run.history));
+                        }
+                    }
+                    Discard::None => {}
                 }
             }
         }
